@@ -24,7 +24,7 @@ func init() {
 }
 
 func genC12(r *core.Rand, run int) *MuxScenario {
-	sc := &MuxScenario{Prop: "C12", Knobs: Knobs{MaxRecv: 65536}, Local: []string{"-"}, SkipRegister: true}
+	sc := &MuxScenario{Prop: "C12", Knobs: Knobs{MaxRecv: 65536}, Local: []string{"-"}, SkipRegister: true, NoDefaultRules: true, Rules: registryRules}
 	sc.Backends = append([]BackendSpec(nil), c11Backends...)
 	// what is already there when the concurrency starts
 	switch r.Intn(4) {
@@ -73,10 +73,12 @@ func genC12(r *core.Rand, run int) *MuxScenario {
 	nreq := 2 + r.Intn(6)
 	for i := 0; i < nreq; i++ {
 		pk := probeKinds[r.Intn(len(probeKinds))]
-		sp := ReqSpec{ID: i + 1, Proto: pk.proto, Codec: pk.codec, Method: pk.method, Route: pk.route, Weight: 1 + r.Intn(3),
-			PathVar: r.PickS("a", "cat.jpg", "x-1"),
-			Msgs:    []MsgSpec{{Size: r.Pick(3, 5, 40), Seed: r.U64() >> 8}},
-			Handler: HandlerSpec{FailCode: 10, Resps: []MsgSpec{{Size: r.Pick(0, 7, 30), Seed: r.U64() >> 8}}}}
+		sp := mkProbe(r, i+1, pk)
+		sp.Weight = 1 + r.Intn(3)
+		if sp.Raw != nil {
+			sc.Reqs = append(sc.Reqs, sp)
+			continue
+		}
 		switch r.Intn(6) {
 		case 0: // a short bidi stream over gRPC or gRPC-web
 			sp.Proto, sp.Codec, sp.Method, sp.Route = r.PickS("grpc", "grpcweb"), "proto", "bidi", ""
@@ -264,8 +266,10 @@ func oracleRegistryConcurrent(prop string, mr *muxRun, res *RunResult) *Violatio
 		}
 		if out.Served != "" {
 			cnt[cProbeServed]++
-			if v := oracleStream(prop, mr, rs, cnt); v != nil {
-				return v
+			if rs.spec.Raw == nil {
+				if v := oracleStream(prop, mr, rs, cnt); v != nil {
+					return v
+				}
 			}
 		} else {
 			cnt[cProbeUnimplemented]++
